@@ -389,3 +389,86 @@ func unescapeRef(s string) string {
 	}
 	return out
 }
+
+// ---- the harness's own reader of the .snap format (so that what a file holds is judged by the
+// documented format, not by the implementation's reader): lines are separated by "\n" (a "\r"
+// before it is dropped, the documented limitation), an entry is a line equal to its id followed
+// by the body lines up to a line equal to "---"; the first such entry counts.
+
+var errRefNotFound = fmt.Errorf("reference reader: entry not found")
+
+func scanLines(content string) []string {
+	var lines []string
+	start := 0
+	for i := 0; i < len(content); i++ {
+		if content[i] == '\n' {
+			end := i
+			if end > start && content[end-1] == '\r' {
+				end--
+			}
+			lines = append(lines, content[start:end])
+			start = i + 1
+		}
+	}
+	if start < len(content) {
+		end := len(content)
+		if content[end-1] == '\r' {
+			end--
+		}
+		lines = append(lines, content[start:end])
+	}
+	return lines
+}
+
+// refPrev returns the body of entry id in the file at path and the line number of its header.
+func refPrev(id, path string) (string, int, error) {
+	b, err := os.ReadFile(path)
+	if err != nil {
+		return "", -1, errRefNotFound
+	}
+	lines := scanLines(string(b))
+	for i := 0; i < len(lines); i++ {
+		if lines[i] != id {
+			continue
+		}
+		body := ""
+		for j := i + 1; j < len(lines); j++ {
+			if lines[j] == "---" {
+				if len(body) > 0 {
+					body = body[:len(body)-1]
+				}
+				return body, i + 1, nil
+			}
+			body += lines[j] + "\n"
+		}
+		return "", -1, errRefNotFound
+	}
+	return "", -1, errRefNotFound
+}
+
+// ---- user-visible marks of the printed output (written out here: the harnesses judge what is
+// printed, not which identifiers the implementation builds it from)
+const (
+	vxBullet   = "• "
+	vxArrow    = "› "
+	vxSkipMark = "⟳ "
+	vxErrMark  = "✕ "
+)
+
+// isLog: a value handed to t.Log is the given message (colour codes around it allowed).
+func isLog(v any, msg string) bool {
+	s, ok := v.(string)
+	if !ok {
+		return false
+	}
+	for i := 0; i+len(msg) <= len(s); i++ {
+		if s[i:i+len(msg)] == msg {
+			return true
+		}
+	}
+	return false
+}
+
+// forceInit makes the package's start-up (reading the environment, the CI flag, the defaults)
+// happen now, e.g. before goroutines start.
+func forceInit() { _ = WithConfig() }
